@@ -239,6 +239,8 @@ def run_case(ctx):
     ctx.fork_mode = bool(src.draw("pool.fork", 0, 2) == 2)
     tool = ChefBuiltinT() if builtin else tools.ChefUserT()
     tool.draw(ctx, src)
+    if tool.opts["in_form"] == "dot":
+        tool.opts["in_form"] = "rel"
     if tool.opts["in_form"].endswith("/"):
         tool.opts["in_form"] = tool.opts["in_form"][:-1]
     if tool.opts["out"] == "default":
